@@ -72,6 +72,9 @@ TRUSTED = [
     "(also with nodes sharing names); real Orientation / Center classes and subclasses (TopocentricOrientation, LocalOrbitalOrientation, LagrangeOrient, JplCenter, user-defined "
     "sub- and sub-subclasses) driven through the registration sites of the code and raw + / setattr vs the compiled registry model: graph, and for every start object and goal name "
     "the exception kind or the chain of (step, direct/reverse, object owning the resolved method) of a real convert_to call",
+    "correspondence real-registry: in a forked child every Node.__add__ (patched) and every stored '<a>_to_<b>' attribute (class / instance dict comparison before and after each "
+    "public-API registration: solarsystem, jpl with tests/data/jpl, lagrange, stations below any frame, orbit frames, re-registrations) is recorded and replayed in the compiled registry "
+    "model; neighbour sets, routing tables and, for every start object and goal name, the chain of resolved link methods of the live Earth / ITRF graphs are compared exactly",
     "harness/c20_registry.py: bounded walk of Node.routes (n+2 steps) used to decide that a real path()/convert_to call terminates before making it",
 ]
 ASSUMPTIONS = [
@@ -84,7 +87,8 @@ ASSUMPTIONS = [
 OPEN = [
     "with nodes sharing a name, 'routes lead to a nearest node of the name and never loop' is proved only for <=3 nodes (kernel decide); beyond that it is compared exhaustively "
     "(4 nodes) / on random forests with the real code (forest_routes_exact assumes one name per node)",
-    "registration sites of beyond.env.solarsystem / beyond.env.jpl / lagrange() centres are tied by the AST extraction and by the real-registry oracle, not by the synthetic correspondence",
+    "the initial (import-time) registry enters convert_resolves as a hypothesis (every link has a base-class method); for the built-in orientation graph that hypothesis is the "
+    "regenerated decide-theorem builtin_links_have_methods, the two are not composed into one statement inside Lean",
 ]
 NOT_COVERED = ["'a shortest chain in general' is false of the current code (known finding C20-cyclic-nonshortest)",
                "a TopocentricOrientation constructed directly is linked but unresolvable from other orientations (known finding C20-topocentric-ctor-instance-only)",
@@ -161,6 +165,7 @@ def extract(ctx):
             raise RuntimeError(f"Orientation.{a}_to_{b}: not a pair of built-in orientations")
         meth.append((onames.index(a), onames.index(b)))
     ctx.sites = sites
+    ctx.orient_builtin = (list(onames), [list(e) for e in ctx.graphs["orient"][1]], [list(e) for e in meth])
     if core.write_if_changed(os.path.join(core.LEAN, "BeyondVerif", "Generated", "RegSites.lean"), c20_sites.to_lean(sites, meth)):
         changed.append("Generated/RegSites.lean")
     return changed
@@ -311,7 +316,44 @@ def correspondence(ctx):
             out.fail("node-live", f"live {name} graph tables differ from the model run on the recorded history", name, observed=exp, expected=m)
     correspondence_named(ctx, out)
     correspondence_registry(ctx, out)
+    correspondence_real_registry(ctx, out)
     return out
+
+
+def correspondence_real_registry(ctx, out):
+    """Model/Registry.lean vs the REAL registries of beyond.frames (centres below Earth, orientations around ITRF) after
+    histories of public-API registrations (solarsystem, jpl, lagrange, stations below any frame, orbit frames, re-registrations):
+    every Node.__add__ and every stored '<a>_to_<b>' attribute is recorded in a forked child and replayed in the model; neighbour
+    sets, routing tables and, for every start object and goal name, the resolved chain of link methods are compared exactly"""
+    from harness import c20_registry as R
+    builtin = getattr(ctx, "orient_builtin", None)
+    if builtin is None:
+        out.fail("real-registry-tie", "built-in orientation tables were not extracted", {})
+        return
+    scen = [(nm, ops) for nm, ops in R.fixed_scenarios()] + [R.topo_direct_scenario()]
+    for i in range(ctx.n(10, 120)):
+        scen.append((f"random{i}", R.random_scenario(ctx.rng, ctx.rng.randint(3, 10))))
+    lines, meta = [], []
+    for nm, ops in scen:
+        res = R.run_forked(ops, {"builtin": builtin, "no_convert": True}, time_limit=40.0)
+        if res.get("error") or not res.get("tie"):
+            if not res.get("fails"):
+                out.fail("real-registry-tie", "scenario could not be recorded on the real registry", {"registry_scenario": ops}, observed=res.get("error"))
+            continue     # a scenario the real code fails on is a matter for the oracle, which runs the same scenarios
+        for world in ("orient", "center"):
+            line, real = res["tie"][world]
+            lines.append(line)
+            meta.append((nm, ops, world, real))
+    model = core.Driver().run(lines)
+    for (nm, ops, world, real), line, m in zip(meta, lines, model):
+        out.count(key=("real-registry", world, line), kind="real-registry-" + world, objects=min(int(line.split()[1]) // 10 * 10, 60))
+        if real != m:
+            # first differing field, for the report
+            rs, ms = real.split(";"), m.split(";")
+            k = next((i for i, (a, b) in enumerate(zip(rs, ms)) if a != b), min(len(rs), len(ms)))
+            out.fail("real-registry-tie", f"{world} registry after a history of public registrations differs from Model/Registry.lean run on the recorded links / setattr",
+                     {"registry_scenario": ops, "world": world, "request": line[:400]}, observed=";".join(rs[max(0, k - 1):k + 2])[:300], expected=";".join(ms[max(0, k - 1):k + 2])[:300])
+        out.sample({"scenario": nm, "world": world, "request": line[:200], "reply": m[:160]}, limit=8)
 
 
 def random_names(rng, n):
